@@ -57,14 +57,19 @@ def gen_inputs(tier, rng):
     for n in range(L + 1):
         for tup in itertools.product(' a\t\n', repeat=n):
             inputs.append(('Paragraph', [''.join(tup)]))
-    # all 2-splits of the short strings, on the three classes in turn
+    # all 2-splits (and all 3-splits of the shorter ones) of the short strings over the FULL small alphabet — a later
+    # piece ending in a newline after an earlier tab / line break is a shape of its own
     L2 = 3 if tier == "quick" else 5
     k = 0
     for n in range(1, L2 + 1):
-        for tup in itertools.product(' a\t', repeat=n):
+        for tup in itertools.product(' a\t\n', repeat=n):
             s = ''.join(tup)
             for cut in range(0, n + 1):
                 inputs.append((('Paragraph', 'Span', 'Header')[k % 3], [s[:cut], s[cut:]])); k += 1
+            if n <= (3 if tier == "quick" else 4):
+                for c1 in range(0, n + 1):
+                    for c2 in range(c1, n + 1):
+                        inputs.append((('Paragraph', 'Span', 'Header')[k % 3], [s[:c1], s[c1:c2], s[c2:]])); k += 1
     # edge stream: long runs of spaces (the text:s count gets several decimal digits), leading / inner / trailing,
     # alone and next to tabs / newlines, whole or cut inside the run
     runs = list(range(2, 31)) + [99, 100, 101, 110, 199, 200, 201, 999, 1000, 1001] if tier != "quick" else \
@@ -149,7 +154,7 @@ def run(tier, seed, replay=None):
                       "ODF 1.2 section 6.1.2 consumer as modelled in WS.consume (LibreOffice reading: text:s / text:tab / text:line-break are non-collapsible and reset the collapse state)",
                       "modelled in WS.v: Paragraph._expand_spaces/_merge_spaces/_sub_merge_spaces/_replace_tabs_lb/append_plain_text, Element.__append for strings, inner_text of text:s/tab/line-break"],
         evaluations=len(cases), distinct_nontrivial=distinct,
-        rule="all strings over {space,a,tab,newline} up to length %d as one piece; all 2-splits of all strings over {space,a,tab} up to length %d; random strings over 12 symbols (XML-special, non-ASCII, NBSP) cut into 1-4 appends, on Paragraph/Span/Header, the first piece through the constructor or through append or append_plain_text; corpus first. non-trivial = contains white space; distinct = distinct (class, pieces)"
+        rule="all strings over {space,a,tab,newline} up to length %d as one piece; all 2-splits (3-splits of the shorter ones) of all strings over {space,a,tab,newline} up to length %d; random strings over 12 symbols (XML-special, non-ASCII, NBSP) cut into 1-4 appends, on Paragraph/Span/Header, the first piece through the constructor or through append or append_plain_text; corpus first. non-trivial = contains white space; distinct = distinct (class, pieces)"
              % ((4, 3) if tier == "quick" else (6, 5)),
         samples=[dict(cls=c, pieces=p, mode=m) for c, p, m in inputs[nexh + len(corpus):][:3]], modes=modes, classes=hist,
         exhaustive_prefix_cases=nexh, corpus_cases=len(corpus),
